@@ -170,7 +170,7 @@ def main():
         ],
         "checks": checks,
         "not_applicable": na,
-        "notes": "VERIF_SEED selects the master seed (default 0); run i of property P draws everything from random.Random(f'{seed}:{P}:{i}'). Exit 0 held / 1 VIOLATION / 2 HARNESS-ERROR. Known findings: /verif/known_findings.json (three defects repaired by fix: commits in /repo, no open finding).",
+        "notes": "VERIF_SEED selects the master seed (default 0); run i of property P draws everything from random.Random(f'{seed}:{P}:{i}'). Exit 0 held / 1 VIOLATION / 2 HARNESS-ERROR. Known findings: /verif/known_findings.json (four defects repaired by fix: commits in /repo, no open finding). Every check also runs a further eighth of its seeded runs in a child interpreter started with python -O.",
     }
     with open(os.path.join(HERE, "MANIFEST.json"), "w") as f:
         json.dump(manifest, f, indent=1)
